@@ -13,7 +13,9 @@
 (*   Rt      call and return of JitRuntime operations (construction, add, release, reset, destruction),    *)
 (*           with what the driver observed: returned address, JitAllocator::query() of it, the base the    *)
 (*           installed image was relocated for, image == reference image, result of executing it.          *)
-(*   Jit / Flush   calls of VirtMem::protect_jit_memory and VirtMem::flush_instruction_cache.              *)
+(*   Jit / Flush   calls of VirtMem::protect_jit_memory and VirtMem::flush_instruction_cache; construction *)
+(*           and destruction of a ProtectJitReadWriteScope by the driver are bracketed like Vm calls       *)
+(*           (api scope_open / scope_close).                                                               *)
 (*                                                                                                         *)
 (* The state is what an OS would know - the set of mappings (address range, protection, backing object,    *)
 (* sharing), open descriptors, names created in the file system - derived from the Os events ONLY, plus    *)
@@ -42,12 +44,12 @@ VARIABLES
   handles,  \* set of live API handles [k, rx, rw, n, owner, ok, pristine]  (k = "single": rx = rw)
   spans,    \* JitRuntime: set of live code spans [p, n]
   rt,       \* JitRuntime: [alive, dual, multi, fill, imm, nopad, gran, pools]
-  vm,       \* VirtMem call in progress: [api, arg, m0]   (api = "none": no call)
-  rtc,      \* JitRuntime call in progress: [api, arg, h0, s0]
+  vm,       \* VirtMem call in progress: [api, arg, m0, f0, log]   (api = "none": no call)
+  rtc,      \* JitRuntime call in progress: [api, arg, h0, s0, m0, f0]
   jit,      \* per-thread JIT protection: "RX" | "RW"
   flushed,  \* ranges passed to flush_instruction_cache during the JitRuntime call in progress
   lastfree, \* JitRuntime: size of the span released by the previous call if its block stayed mapped, else 0
-  facts     \* what the execution revealed so far: [refused, granted, fail, info, lp, hri]
+  facts     \* what the execution revealed so far: [refused, granted, fail, hard, info, lp, hri]
 
 cvars == <<page, maps, fds, files, objsz, handles, spans, rt, vm, rtc, jit, flushed, lastfree, facts>>
 
